@@ -64,6 +64,7 @@ func c20ExtraOps(h *History, g *G) []*Op {
 				o := perp[g.Pick("c20/po", len(perp))]
 				np := o.TriggerPrice
 				np.Rate = np.Rate.MulInt64(int64(g.Int("c20/uprate", 80, 120))).QuoInt64(100)
+				np.TradingAssetDenom = g.trigDenom(np.TradingAssetDenom)
 				op = &Op{Signer: u, Kind: "c20.update_perp", Msg: &tstypes.MsgUpdatePerpetualOrder{OwnerAddress: u.Addr.String(), OrderId: o.OrderId, TriggerPrice: np}}
 			}
 		case 7:
